@@ -318,8 +318,26 @@ func (w *World) nextAction() (simrt.Action, bool) {
 		kind := []string{"prevote", "precommit", "prevote", "precommit", "propose"}[w.Rng.Intn(5)]
 		if w.proposerID(v.rs) == id && w.Rng.Chance(1, 2) {
 			kind, r = "propose", v.rs.Round
-			if w.Rng.Chance(1, 3) {
-				return simrt.Action{K: "byz", N: id, S: "propose-bad", A: h, B: r, C: int64(w.Rng.Intn(len(badBlockKinds)))}, true
+			// validators take the first proposal of a round they see: a proposer that floods a round with
+			// proposals dilutes every single one, so it mostly proposes once per round (and sometimes equivocates)
+			pk := [2]int64{h, r}
+			if w.byzProposed == nil {
+				w.byzProposed = map[[2]int64]int{}
+			}
+			if w.byzProposed[pk] > 0 && !w.Rng.Chance(1, 5) {
+				kind = []string{"prevote", "precommit"}[w.Rng.Intn(2)]
+			} else {
+				w.byzProposed[pk]++
+			}
+		}
+		if kind == "propose" && r == v.rs.Round && w.proposerID(v.rs) == id {
+			if w.Rng.Chance(1, 2) {
+				// every run has one kind of bad block its Byzantine proposers come back to (swarm style)
+				k := w.Rng.Intn(len(badBlockKinds))
+				if w.Rng.Chance(3, 4) {
+					k = int(w.Cfg.Seed>>7) % len(badBlockKinds)
+				}
+				return simrt.Action{K: "byz", N: id, S: "propose-bad", A: h, B: r, C: int64(k)}, true
 			}
 			if r > 0 && w.Rng.Chance(1, 2) {
 				return simrt.Action{K: "byz", N: id, S: "propose", A: h, B: r, C: int64(w.Rng.Intn(4)), I: fmt.Sprintf("pol%d", 1+w.Rng.Intn(int(min(r, 3))))}, true
